@@ -325,14 +325,24 @@ func (in *Interp) decl(s *ast.DeclStmt, ev *env) {
 }
 
 func (in *Interp) assign(s *ast.AssignStmt, ev *env) {
-	if len(s.Lhs) != 1 || len(s.Rhs) != 1 {
-		in.fail("multi-assignment")
+	if len(s.Lhs) != len(s.Rhs) || len(s.Lhs) == 0 {
+		in.fail("assignment of a multi-valued expression")
 	}
-	id, ok := s.Lhs[0].(*ast.Ident)
-	if !ok {
-		in.fail("assignment to non-identifier")
+	// a, b := x, y: all right-hand sides are evaluated before any assignment
+	vals := make([]any, len(s.Rhs))
+	for i, r := range s.Rhs {
+		vals[i] = in.value(r, ev)
 	}
-	ev.vars[id.Name] = in.value(s.Rhs[0], ev)
+	for i, l := range s.Lhs {
+		id, ok := l.(*ast.Ident)
+		if !ok {
+			in.fail("assignment to non-identifier")
+		}
+		if id.Name == "_" {
+			continue
+		}
+		ev.vars[id.Name] = vals[i]
+	}
 }
 
 func (in *Interp) callName(c *ast.CallExpr) string {
